@@ -310,7 +310,7 @@ func nonceReaderRule(c *Ctx, rule string) {
 				hasNonce = true
 			}
 		}
-		if hasNonce && !reachesInvoke(c.P, fn, "AccountDataHandler.SaveKeyValue", 0) && reachesInvoke(c.P, fn, "AccountDataHandler.RetrieveValue", 0) {
+		if hasNonce && !reachesInvoke(c.P, fn, "AccountDataHandler.SaveKeyValue", 0) && reachesInvoke(c.P, fn, "AccountDataHandler.RetrieveValue", 0) && resultHandedToSaver(c.P, fn) {
 			readers = append(readers, fn)
 		}
 	}
@@ -352,6 +352,54 @@ func nonceReaderRule(c *Ctx, rule string) {
 				Expected: "if esdtData.TokenMetaData.Nonce != nonce { return error } in the reader"})
 		}
 	}
+}
+
+// resultHandedToSaver: some caller hands the entry the function returns to a function that writes storage (the saver recomputes
+// the key from the entry's own metadata nonce). A helper whose entry is only looked at — the destination's current holding — is
+// not a reader in the sense of the rule.
+func resultHandedToSaver(p *Prog, fn *ssa.Function) bool {
+	var flows func(v ssa.Value, depth int) bool
+	flows = func(v ssa.Value, depth int) bool {
+		if depth > 3 || v.Referrers() == nil {
+			return false
+		}
+		for _, ref := range *v.Referrers() {
+			switch x := ref.(type) {
+			case *ssa.Call:
+				sc := x.Call.StaticCallee()
+				if sc == nil {
+					continue
+				}
+				for _, a := range x.Call.Args {
+					if a == v && reachesInvoke(p, sc, "AccountDataHandler.SaveKeyValue", 0) {
+						return true
+					}
+				}
+			case *ssa.Phi:
+				if flows(x, depth+1) {
+					return true
+				}
+			case *ssa.Return:
+				// handed on by a wrapper: judged on the wrapper's callers
+				if w := x.Parent(); w != fn && resultHandedToSaver(p, w) {
+					return true
+				}
+			}
+		}
+		return false
+	}
+	for _, cs := range p.Callers[fn] {
+		cv, ok := cs.(ssa.Value)
+		if !ok || cv.Referrers() == nil {
+			continue
+		}
+		for _, ref := range *cv.Referrers() {
+			if ex, ok := ref.(*ssa.Extract); ok && ex.Index == 0 && flows(ex, 0) {
+				return true
+			}
+		}
+	}
+	return false
 }
 
 func c15r4(c *Ctx) { nonceReaderRule(c, "C15-R4") }
